@@ -57,7 +57,11 @@ type evalObs struct {
 	goRes  []RevResult
 	lean   []RevResult
 	leanOK bool
+	std    []RevResult // the Standard's own evaluator (published tables), when asked for
+	hasStd bool
 }
+
+var withStd bool
 
 // policySweep evaluates n generated pods at both levels and the chosen versions on the real evaluator and on the model.
 func policySweep(c *Ctx, n int, invalidEvery int, allMinors bool, perPodMinors int, f func(o evalObs), podf func(pc PodCase, valid bool, proj J)) {
@@ -65,12 +69,17 @@ func policySweep(c *Ctx, n int, invalidEvery int, allMinors bool, perPodMinors i
 	ev := newRecEvaluator()
 	minors := interestingMinors(allMinors)
 	const chunk = 100
+	cat := catalogPods()
+	n += len(cat)
 	for base := 0; base < n; base += chunk {
-		var ops []J
+		var ops, stdOps []J
 		var obs []evalObs
 		for i := base; i < base+chunk && i < n; i++ {
 			var pc PodCase
-			if invalidEvery > 0 && i%invalidEvery == invalidEvery-1 {
+			if i < len(cat) {
+				pc = cat[i]
+				c.Tag("stream.catalog")
+			} else if invalidEvery > 0 && i%invalidEvery == invalidEvery-1 {
 				pc = genInvalidPod(r.Fork(), i)
 				c.Tag("stream.invalid")
 			} else {
@@ -92,7 +101,7 @@ func policySweep(c *Ctx, n int, invalidEvery int, allMinors bool, perPodMinors i
 				podf(pc, valid, proj)
 			}
 			ms := minors
-			if perPodMinors > 0 && perPodMinors < len(minors) {
+			if i >= len(cat) && perPodMinors > 0 && perPodMinors < len(minors) {
 				ms = nil
 				for _, k := range r.Perm(len(minors))[:perPodMinors] {
 					ms = append(ms, minors[k])
@@ -103,14 +112,25 @@ func policySweep(c *Ctx, n int, invalidEvery int, allMinors bool, perPodMinors i
 					goRes, _ := ev.Eval(mkLV(lvl, m), pc.Pod)
 					ops = append(ops, J{"op": "evalPod", "level": lvl, "version": minorJSON(m), "relax": false, "pod": proj})
 					obs = append(obs, evalObs{pc: pc, valid: valid, level: lvl, minor: m, goRes: goRes})
+					if withStd {
+						stdOps = append(stdOps, J{"op": "stdEval", "level": lvl, "version": minorJSON(m), "pod": proj})
+					}
 				}
 			}
 		}
 		outs := c.Lean(ops)
+		var stdOuts []J
+		if withStd {
+			stdOuts = c.Lean(stdOps)
+		}
 		for k := range obs {
 			_, isErr := outs[k]["driverError"]
 			obs[k].lean = leanResults(outs[k])
 			obs[k].leanOK = !isErr
+			if withStd {
+				obs[k].std = leanResults(stdOuts[k])
+				obs[k].hasStd = true
+			}
 			c.Eval(1)
 			f(obs[k])
 		}
@@ -140,6 +160,8 @@ func bits(rs []RevResult) string {
 // ---------------------------------------------------------------- C02
 
 func runC02(c *Ctx) {
+	withStd = true
+	defer func() { withStd = false }()
 	n, per := 1200, 10
 	if c.Thorough {
 		n, per = 20000, 0
@@ -165,7 +187,7 @@ func runC02(c *Ctx) {
 		revOps, revGo, revIn = nil, nil, nil
 	}
 	policySweep(c, n, 10, c.Thorough, per, func(o evalObs) {
-		ga, la := allAllowed(o.goRes), allAllowed(o.lean)
+		ga := allAllowed(o.goRes)
 		if !o.leanOK {
 			return
 		}
@@ -179,10 +201,12 @@ func runC02(c *Ctx) {
 				Input: J{"level": o.level, "minor": o.minor, "pod": o.pc.Pod, "atoms": o.pc.Atoms}}
 			c.Disagree(f)
 		}
-		if o.valid && ga != la {
-			// the model's verdict is the Standard's verdict (theorems C02_baseline / C02_restricted): a property violation
-			c.Violate(Finding{Desc: fmt.Sprintf("API-valid pod: evaluator says allowed=%v but the Pod Security Standard at %s says allowed=%v", ga, verName(o.level, o.minor), la),
-				Key: "verdict", Input: J{"level": o.level, "minor": o.minor, "pod": o.pc.Pod}, Go: bits(o.goRes), Lean: bits(o.lean)})
+		sa := allAllowed(o.std)
+		if o.valid && ga != sa {
+			// the Standard's own evaluator (published tables, version thresholds written from the Standard; proved equal to the
+			// model and to Std.baseline / Std.restricted while the obligations hold): a property violation
+			c.Violate(Finding{Desc: fmt.Sprintf("API-valid pod: evaluator says allowed=%v but the Pod Security Standard at %s says allowed=%v", ga, verName(o.level, o.minor), sa),
+				Key: "verdict", Input: J{"level": o.level, "minor": o.minor, "pod": o.pc.Pod}, Go: bits(o.goRes), Lean: bits(o.std)})
 		}
 	}, func(pc PodCase, valid bool, proj J) {
 		nBad, nGood := 0, 0
